@@ -1,2 +1,3 @@
 import SR.Drv.C12
-def main : IO Unit := SR.Drv.runMain [SR.Drv.C12.handle]
+import SR.Drv.Chk
+def main : IO Unit := SR.Drv.runMain [SR.Drv.C12.handle, SR.Drv.Chk.handle]
